@@ -1628,6 +1628,14 @@ static int cfg_parse_internal(cfg_t *cfg, int level, int force_state, cfg_opt_t 
 					goto error;
 				if (opt && opt->validcb && (*opt->validcb) (cfg, opt) != 0)
 					goto error;
+
+				/* Inherit last read comment, as for a braced list */
+				if (comment && cfg_opt_setcomment(opt, comment) != CFG_SUCCESS)
+					goto error;
+				if (comment)
+					free(comment);
+				comment = NULL;
+
 				++num_values;
 				state = 0;
 			} else {
